@@ -36,6 +36,8 @@ def main():
         os._exit(2)
     signal.signal(signal.SIGALRM, on_alarm)
     signal.alarm(limit)
+    import time
+    runner.GLOBAL_DEADLINE[0] = time.time() + limit
     try:
         mod = importlib.import_module(f"props.{a.property.lower()}")
         prop = mod.PROP
